@@ -1,5 +1,18 @@
-import JubakoModel.Model.Bytes
-import JubakoModel.Model.Crc
-import JubakoModel.Model.View
-import JubakoModel.Lemmas.Slice
+-- Root of the `JubakoModel` library: everything the checks build.
+import JubakoModel.Theorems.C01
+import JubakoModel.Theorems.C02
+import JubakoModel.Theorems.C03
+import JubakoModel.Theorems.C04
+import JubakoModel.Theorems.C05
+import JubakoModel.Theorems.C06
+import JubakoModel.Theorems.C07
+import JubakoModel.Theorems.C08
+import JubakoModel.Theorems.C09
+import JubakoModel.Theorems.C10
+import JubakoModel.Theorems.C11
+import JubakoModel.Theorems.C12
 import JubakoModel.Theorems.C13
+import JubakoModel.Theorems.C14
+import JubakoModel.Theorems.C15
+import JubakoModel.Theorems.C16
+import JubakoModel.Lemmas.CreatorFast
